@@ -98,8 +98,17 @@ func (s *SpokFile) buildGraph(requested ...string) (*dag.Graph[string, task.Task
 	// DAG of tasks using the name as the unique id
 	graph := dag.New[string, task.Task]()
 
-	// TODO: Make this recursive so it will go through dependencies of dependencies
-	for _, name := range requested {
+	// Work through the requested tasks and then the dependencies of every task added
+	// along the way, so that dependencies of dependencies end up in the graph too
+	queue := append([]string{}, requested...)
+	seen := make(map[string]bool)
+	for len(queue) > 0 {
+		name := queue[0]
+		queue = queue[1:]
+		if seen[name] {
+			continue
+		}
+		seen[name] = true
 		requestedTask, ok := s.Tasks[name]
 		if !ok {
 			closest := s.findClosestMatch(name)
@@ -137,6 +146,7 @@ func (s *SpokFile) buildGraph(requested ...string) (*dag.Graph[string, task.Task
 					return nil, fmt.Errorf("could not add vertex for task %s: %w", dep, err)
 				}
 			}
+			queue = append(queue, dep)
 
 			// Now create the dependency connection between the parent task and this one
 			// dep is the parent here because it must be run before the task we're
@@ -174,6 +184,10 @@ func (s *SpokFile) Run(stream iostream.IOStream, runner shell.Runner, force bool
 	runOrder, err := dag.Sort()
 	if err != nil {
 		return nil, err
+	}
+	if len(runOrder) != dag.Order() {
+		// The sort leaves out every task that is part of (or depends on) a dependency cycle
+		return nil, errors.New("task dependencies contain a cycle, cannot determine a run order")
 	}
 	names := make([]string, 0, len(runOrder))
 	for _, taskToRun := range runOrder {
